@@ -175,6 +175,30 @@ def _is_const_type(t):
     return t.startswith('const ') or t.endswith(' const') or ' const &' in t or 'const &' in t
 
 
+STD_CONST_METHODS = {'size', 'length', 'empty', 'data', 'c_str', 'at', 'find', 'rfind', 'find_first_of', 'find_last_of', 'find_first_not_of', 'find_last_not_of',
+                     'count', 'front', 'back', 'begin', 'end', 'cbegin', 'cend', 'rbegin', 'rend', 'substr', 'compare', 'starts_with', 'ends_with', 'capacity',
+                     'get', 'load', 'index', 'has_value', 'value', 'lower_bound', 'upper_bound', 'equal_range', 'contains', 'first', 'second', 'what',
+                     'operator[]', 'operator*', 'operator->', 'operator bool', 'joinable', 'str'}
+
+
+def _method_is_const(m):
+    """m: the MemberExpr naming the called method."""
+    rid = m.get('referencedMemberDecl')
+    if rid:
+        for d in DECLS.get(rid, ()):
+            if d.get('name') == m.get('name'):
+                t = d.get('type', {}).get('qualType', '')
+                t = t.replace(' noexcept', '').rstrip()
+                return t.endswith(' const') or t.endswith(') const') or d.get('kind') == 'CXXConversionDecl' and 'const' in t
+    obj = m['inner'][0] if m.get('inner') else None
+    if obj is not None and _is_const_type(qtype(obj)):
+        return True
+    ot = dtype(obj) if obj is not None else ''
+    if ot and ('std::' in ot) and m.get('name') in STD_CONST_METHODS:
+        return True
+    return False
+
+
 def assigned_keys(n):
     """Keys that may be modified by executing n (over-approximation)."""
     out = set()
@@ -195,8 +219,7 @@ def assigned_keys(n):
         elif k == 'CXXMemberCallExpr':
             m = strip(x['inner'][0])
             if m.get('kind') == 'MemberExpr':
-                fn_t = qtype(m) or ''
-                is_const = fn_t.rstrip().endswith('const') or ') const' in fn_t
+                is_const = _method_is_const(m)
                 if not is_const:
                     obj = m['inner'][0] if m.get('inner') else None
                     v = var_key(obj) if obj is not None else 'this'
@@ -285,7 +308,7 @@ def check_no_goto(func):
             raise AnalysisBroken('goto/label in %s: the structured path engine refuses this function' % func.get('name'))
 
 
-def path_facts(site, stop=None):
+def path_facts(site, stop=None, ignore_kills_of=()):
     """Conditions that hold (pol=True) or fail (pol=False) on every path reaching
     site, with facts invalidated by intervening assignments removed."""
     facts = []
@@ -293,10 +316,15 @@ def path_facts(site, stop=None):
     c = site
     p = site.get('_p')
 
+    ign = set(ignore_kills_of)
+
     def add(cond, pol, origin):
         if cond is None:
             return
-        if killed_by(mentioned_keys(cond), killed):
+        k2 = killed
+        if ign:
+            k2 = {k for k in killed if not any(k == i or str(k).startswith(str(i) + '.') for i in ign)}
+        if killed_by(mentioned_keys(cond), k2):
             return
         facts.append(Fact(cond, pol, origin))
 
